@@ -154,6 +154,22 @@ func (e *poolEngine) step(ws []string) string {
 		}
 		e.mp.CommitTransactions(st)
 		return "ok"
+	case "commitready": // commitready <j> : a block of another leader commits up to j ready transactions this pool never batched
+		j := 1
+		if len(ws) > 1 {
+			j, _ = strconv.Atoi(ws[1])
+		}
+		st := &mempool.ChainState{}
+		var names []string
+		for _, h := range mempool.VerifReadyNeverBatched(e.mp, j) {
+			st.TxHashList = append(st.TxHashList, h)
+			names = append(names, e.hashName[h.String()])
+		}
+		if len(names) == 0 {
+			return "none"
+		}
+		e.mp.CommitTransactions(st)
+		return "ok " + strings.Join(names, ",")
 	case "commitlast": // commitlast all | first:<j> | rev : commit (part of) the oldest uncommitted batch
 		if len(e.batches) == 0 {
 			return "nobatch"
